@@ -85,13 +85,256 @@ def _end_to_end(nex, n_sched):
     return fn
 
 
+
+
+
+
+# ------------------------------------------------------------------------------------------
+# direct drive of WorkQueue + IncrementalPublisher with harness work graphs
+
+
+def enumerate_graphs(max_groups, max_tasks, max_streams):
+    """Small work graphs as JSON specs (preconditions P1-P3 hold by construction)."""
+    parent_vectors = {0: [[]], 1: [[None]], 2: [[None, None], [None, 0]],
+                      3: [[None, None, None], [None, 0, None], [None, None, 0], [None, 0, 0],
+                          [None, None, 1], [None, 0, 1]]}
+    outcomes = [(o, g) for o in ("ok", "fail", "nested-group", "nested-stream") for g in (False, True)]
+    stream_kinds = [{"batches": b, "end": e} for b in ([], [1], [2], [1, 1]) for e in ("stop", "fail", "known-stop")]
+    for ng in range(0, max_groups + 1):
+        for parents in parent_vectors[ng]:
+            anc = []
+            for i, p in enumerate(parents):
+                anc.append(set() if p is None else anc[p] | {p})
+            antichains = [c for r in range(1, ng + 1) for c in itertools.combinations(range(ng), r)
+                          if not any(a in anc[b] or b in anc[a] for a in c for b in c if a != b)]
+            for nt in range(0, max_tasks + 1):
+                if nt and not antichains:
+                    continue
+                for task_groups in itertools.product(antichains, repeat=nt):
+                    for task_out in itertools.product(outcomes, repeat=nt):
+                        for ns in range(0, max_streams + 1):
+                            if nt + ns == 0:
+                                continue  # P1
+                            for streams in itertools.product(stream_kinds, repeat=ns):
+                                yield {"parents": parents,
+                                       "tasks": [{"groups": list(g), "outcome": o, "gated": gt}
+                                                 for g, (o, gt) in zip(task_groups, task_out)],
+                                       "streams": list(streams)}
+
+
+def run_graph(spec, schedule):
+    """Build the work for spec, drive publisher + work queue under the schedule, monitor payloads."""
+    from graphql.execution.incremental.computation import Computation
+    from graphql.execution.incremental.incremental_executor import (DeliveryGroup, ExecutionGroup,
+                                                                     ExecutionGroupValue, ItemStream,
+                                                                     StreamItemValue)
+    from graphql.execution.incremental.incremental_publisher import IncrementalPublisher
+    from graphql.execution.incremental.work_queue import Work, WorkResult
+    from graphql.pyutils import Path
+
+    from vkit.harness.incremental import Assembler
+    from vkit.harness.sched import Sched
+
+    sched = Sched(schedule, max_steps=400)
+    groups = []
+    for i, p in enumerate(spec["parents"]):
+        groups.append(DeliveryGroup(None, f"G{i}", groups[p] if p is not None else None))
+    starts = {}
+    data = {}
+
+    class HQueue:
+        def __init__(self, name, kind):
+            self.name, self.kind = name, kind
+            self.stopped = False
+
+        async def batches(self):
+            n = 0
+            for bi, size in enumerate(self.kind["batches"]):
+                await sched.gate(f"{self.name}:b{bi}")
+                if bi == len(self.kind["batches"]) - 1 and self.kind["end"] == "known-stop":
+                    self.stopped = True
+                yield [WorkResult(StreamItemValue(n + k), None) for k in range(size)]
+                n += size
+            await sched.gate(f"{self.name}:end")
+            if self.kind["end"] == "fail":
+                raise RuntimeError(f"{self.name} failed")
+            self.stopped = True
+
+        def is_stopped(self):
+            return self.stopped
+
+        def abort(self, reason=None):
+            return None
+
+    def mk_stream(name, kind):
+        data.setdefault(name, [])
+        return ItemStream(Path(None, name, None), "S" + name, HQueue(name, kind), 0)
+
+    def mk_task(name, tgroups, outcome, gated):
+        def result():
+            if outcome == "fail":
+                raise RuntimeError(f"{name} failed")
+            work = None
+            if outcome == "nested-group":
+                child = DeliveryGroup(None, f"N{name}", tgroups[0])
+                sub = mk_task(name + "c", [child], "ok", False)
+                work = Work([child], [sub], [])
+            elif outcome == "nested-stream":
+                work = Work([], [], [mk_stream("n" + name, {"batches": [1], "end": "stop"})])
+            return WorkResult(ExecutionGroupValue(tgroups, [], {"v" + name: 1}), work)
+
+        def fn():
+            starts[name] = starts.get(name, 0) + 1
+            if not gated:
+                return result()
+
+            async def later():
+                await sched.gate("t" + name)
+                return result()
+
+            return later()
+
+        return ExecutionGroup(tgroups, Computation(fn), None)
+
+    for i, t in enumerate(spec["tasks"]):
+        if t["outcome"] == "nested-stream":
+            data["n" + str(i)] = []  # the list a nested stream appends to exists in the initial data
+    tasks = [mk_task(str(i), [groups[g] for g in t["groups"]], t["outcome"], t["gated"])
+             for i, t in enumerate(spec["tasks"])]
+    streams = [mk_stream(f"s{i}", k) for i, k in enumerate(spec["streams"])]
+
+    class Ctx:
+        abort_signal = None
+
+        def abort_error(self):
+            return RuntimeError("aborted")
+
+        async def cancel_incremental_work(self, reason=None):
+            return None
+
+        def run_async_work_finished_hook(self):
+            return None
+
+    nesting = {}
+    for i, p in enumerate(spec["parents"]):
+        a, q = set(), p
+        while q is not None:
+            a.add(f"G{q}")
+            q = spec["parents"][q]
+        nesting[f"G{i}"] = a
+    asm = Assembler(nesting)
+    out = {"end": None}
+
+    async def main():
+        res = IncrementalPublisher().build_response(data, None, Work(groups, tasks, streams), Ctx())
+        asm.initial(res.initial_result.formatted)
+        async for p in res.subsequent_results:
+            asm.subsequent(p.formatted)
+        out["end"] = "stop"
+
+    try:
+        sched.run(main())
+        asm.finish()
+        return asm, sched, starts, None
+    except Exception as e:  # noqa: BLE001
+        return asm, sched, starts, e
+    finally:
+        sched.drain()
+        sched.close()
+
+
+def eval_graph(spec, max_orders):
+    """All completion orders (depth-first over the schedule tree, capped) of one work graph."""
+    from vkit.harness.sched import Hang, next_schedule
+
+    vs = []
+    schedule = []
+    n = 0
+    traces = []
+    exhausted = False
+    while n < max_orders:
+        asm, sched, starts, err = run_graph(spec, schedule)
+        n += 1
+        case = {"graph": spec, "schedule": list(sched.taken)}
+        if isinstance(err, Hang):
+            vs.append(Violation(("C05", "work-queue-hang"), f"{err}; graph {spec}", case, {"rule": "hang"}))
+        elif err is not None:
+            vs.append(Violation(("C05", "work-queue-raises"), f"{type(err).__name__}: {err}; graph {spec}",
+                                case, {"rule": "raises"}))
+        else:
+            for rule, detail in asm.problems:
+                feats = {"rule": rule, "direct_drive": True}
+                if rule == "completed-for-unknown-id":
+                    feats["unannounced"] = "ever announced: False" in detail
+                    feats["with_errors"] = "with errors: True" in detail
+                vs.append(Violation(("C05", rule), f"{detail}; graph {spec} order {sched.trace}", case, feats))
+            for name, k in starts.items():
+                if k > 1:
+                    vs.append(Violation(("C05", "computation-started-twice"), f"task {name} started {k}x; "
+                                        f"graph {spec}", case, {"rule": "started-twice"}))
+        traces.append((tuple(asm.shapes), len(asm.ever), bool(asm.completed_with_errors),
+                       any(b >= 2 for b in asm.stream_batches)))
+        schedule = next_schedule(sched.taken, sched.branching)
+        if schedule is None:
+            exhausted = True
+            break
+    return vs, n, traces, exhausted
+
+
+def _work_queue(max_groups, max_tasks, max_streams, max_orders, stride):
+    def fn(ctx, shard, nshards):
+        total = 0
+        all_exhausted = True
+        for i, spec in enumerate(enumerate_graphs(max_groups, max_tasks, max_streams)):
+            if (i // stride) % nshards != shard or i % stride:
+                continue
+            vs, n, traces, exhausted = eval_graph(spec, max_orders)
+            total += 1
+            all_exhausted = all_exhausted and exhausted
+            ctx.cls("graph:every-order-enumerated" if exhausted else "graph:orders-capped")
+            ctx.count(n)
+            for shapes, ids, failed, big_batch in traces:
+                shared = any(len(t["groups"]) >= 2 for t in spec["tasks"])
+                nested = any(t["outcome"].startswith("nested") for t in spec["tasks"])
+                if ids >= 2 and (failed or big_batch or shared or nested):
+                    ctx.nontriv([list(s) for s in shapes], "direct-drive-trace")
+            ctx.report(vs)
+        ctx.notes[f"graphs_shard{shard}"] = total
+        ctx.notes[f"every_order_enumerated_shard{shard}"] = all_exhausted
+        ctx.notes["bounds"] = {"groups": max_groups, "tasks": max_tasks, "streams": max_streams,
+                               "orders_cap": max_orders, "stride": stride}
+
+    return fn
+
+
 def subchecks(tier):
     if tier == "quick":
-        return [Sub("end_to_end", _end_to_end(350, 4), shards=14)]
-    return [Sub("end_to_end", _end_to_end(4000, 12), shards=16)]
+        return [Sub("end_to_end", _end_to_end(350, 4), shards=8, weight=2),
+                # every graph with <= 2 groups, <= 2 tasks, <= 1 stream x every completion order (depth-first
+                # over the schedule tree, capped at 600 orders per graph; the class histogram in the evidence
+                # says how many graphs were enumerated completely)
+                Sub("work_queue", _work_queue(2, 2, 1, 600, 1), shards=6, weight=1),
+                # a slice of the 3-group graphs (forests with a grandchild / two children), no streams
+                Sub("work_queue_3g", _work_queue(3, 2, 0, 300, 3), shards=2, weight=1)]
+    return [Sub("end_to_end", _end_to_end(4000, 12), shards=16, weight=2),
+            # the (3, 2, 2) space has 1.68 M graphs: every 6th graph, every order (cap 2000)
+            Sub("work_queue", _work_queue(3, 2, 2, 2000, 6), shards=16, weight=2)]
 
 
 def replay(case):
+    if "graph" in case:
+        asm, sched, starts, err = run_graph(case["graph"], case["schedule"])
+        out = []
+        if err is not None:
+            out.append(Violation(("C05", "work-queue-raises" if not type(err).__name__ == "Hang"
+                                  else "work-queue-hang"), repr(err), case))
+        for rule, detail in asm.problems:
+            feats = {"rule": rule, "direct_drive": True}
+            if rule == "completed-for-unknown-id":
+                feats["unannounced"] = "ever announced: False" in detail
+                feats["with_errors"] = "with errors: True" in detail
+            out.append(Violation(("C05", rule), detail, case, feats))
+        return out
     _vs, _n, _status, _nt, monitor = c04.eval_scenario(case)
     out = []
     for asm, c, text, schedule, early, o in monitor:
